@@ -188,6 +188,10 @@ func (sc *hcSchema) topSteps() ([]string, []string) {
 // last level.
 var hcSlim bool
 
+// hcNoCfg leaves every config statement out (harnesses whose property does not depend on config
+// inheritance: the augment and lookup universes)
+var hcNoCfg bool
+
 var hcSlimOps = []int{opDirect, opUses, opAugment, opAugment2}
 
 // hcGenerate draws a schema of n levels.
@@ -209,7 +213,7 @@ func hcGenerate(n int) *hcSchema {
 		} else {
 			lv.op = symChoice(nOps)
 		}
-		if dataTop {
+		if dataTop && !hcNoCfg {
 			lv.cfg = symChoice(3)
 			if (lv.op == opChoiceCase || lv.op == opChoiceShort) && lv.cfg != 0 {
 				lv.onChoice = symBool()
@@ -217,7 +221,7 @@ func hcGenerate(n int) *hcSchema {
 		}
 		if i == n-1 && !hcSlim {
 			lv.extraKind = symChoice(3)
-			if dataTop {
+			if dataTop && !hcNoCfg {
 				lv.extraCfg = symChoice(3)
 			}
 		}
